@@ -151,11 +151,26 @@ def run(ctx):
             # formats keep (255 bytes) stay in FASTA
             # (names made of the words the format sniffer looks for, and residues spelling them, are fine in every format: the first line of a
             # block-format file decides its format, repaired in 8e76171)
+            # gap columns written the way other tools write them: GCG style ('~' for leading / trailing runs, '.' inside), dots only, or a mixture
+            style = rng.choice(["dash", "dash", "gcg", "dots", "mixed"])
+
+            def glyphs(row, style=style):
+                if style == "dash":
+                    return row
+                if style == "dots":
+                    return row.replace("-", ".")
+                if style == "mixed":
+                    return "".join(rng.choice("-.~") if ch == "-" else ch for ch in row)
+                core = row.strip("-")
+                lead = len(row) - len(row.lstrip("-"))
+                return "~" * lead + core.replace("-", ".") + "~" * (len(row) - lead - len(core))
+            aln_w = [(n_, glyphs(r_)) for n_, r_ in aln]
             if max(len(n) for n, _ in aln) > 200 or rng.random() < 0.4:
-                open(path, "w").write(gen.fasta_text(aln))
+                open(path, "w").write(gen.fasta_text(aln_w))
             else:
                 render = rng.choice([c04.render_clustal, c04.render_msf])
-                open(path, "w").write(render(_random.Random(rng.getrandbits(30)), aln))
+                open(path, "w").write(render(_random.Random(rng.getrandbits(30)), aln_w))
+                ctx.count("gap_glyph_style_" + style)
                 ctx.count("compared_from_" + render.__name__)
         lines += ["h_read 0 %s" % fr, "h_read 1 %s" % ft, "h_read 2 %s" % fr2, "h_compare 0 1", "h_compare 2 1", "h_free 0", "h_free 1", "h_free 2"]
         keep.append((A, T, tag))
